@@ -310,3 +310,17 @@ CLAIMED['C18']['text'] = CLAIMED['C18']['text'].replace('not yet compared with r
 CLAIMED['C09']['text'] += (' THE WAIT ITSELF (Net/Platform.v, c09_interrupted_wait_is_a_timeout, c09_select_error_is_fatal): an interrupted select is a wait that found nothing, any other errno is the fatal error; tied to the real SocketImpl by mode platform '
     '(loopback datagram sockets idle / under a stream of signals / with a datagram arriving; hook re-export 377fa64).')
 CLAIMED['C04']['text'] += ' About a third of the datagrams of mode recv are received with every tracing call site enabled and every field formatted (logging at trace level).'
+
+# ninth generation of seeded changes
+CLAIMED['C01']['text'] += (' Mode run charges 250 us of virtual time for every refused (address in use) TCP attempt and requires every probe handed to the network to carry the '
+    'clock reading of the hand-over: a re-issued probe stamped with the time of the first attempt is reported.')
+CLAIMED['C02']['text'] += ' The strategy-loop mode run (real Strategy over a scripted network vs the extracted strategy model) is part of this check too.'
+CLAIMED['C11']['text'] += ' The strategy-loop mode run is part of this check: the probes the real strategy hands to the network (re-issued TCP probes included) are compared field by field with the model.'
+CLAIMED['C12']['text'] += (' OPTIONS WINDOW (Packet/OptionsMut.v, Proofs/OptionsMutProofs.v, 2 theorems + example, 58 obligations in all): Ipv4Packet::get_options_raw_mut, the one accessor that hands out a mutable window, '
+    'covers exactly the octets 20 .. min(4*IHL, len) for every IHL and buffer, and a write through it keeps the length and every octet outside; c12optmut lines complement every octet of the real window.')
+CLAIMED['C13']['text'] += ' All-zero contents (the only input on which the sum is +0, result 0xFFFF) are drawn for every checksum function.'
+CLAIMED['C15']['text'] += ' Hop addresses of mode state are drawn from the special address classes too (link-local, loopback, unspecified, multicast, broadcast).'
+CLAIMED['C17']['text'] += ' Every third case traces IPv6 targets; structured cases walk the selection through every settings tab beyond the last item and back.'
+CLAIMED['C18']['text'] += ' ECMP variants of different length and structured cases with flows of 4 and 5 hops (privacy bound of the flow shown, not of the combined flow).'
+CLAIMED['C09']['text'] += ' startuprace lines: clear() looping on a second thread while the run fails at start-up - the error must survive.'
+CLAIMED['C08']['text'] += ' The clock-step knob also stamps responses in the future of the next clock reading.'
